@@ -96,13 +96,13 @@ fn main() {
         }
         i += 1;
     }
-    let is_test = args.iter().any(|a| a == "--test");
+
     let out_dir = std::env::var("FACTDRV_OUT").ok();
     // Queries such as `--print=...` or `-vV` have no crate: pass through.
     let has_input = args.iter().any(|a| a.ends_with(".rs"));
     let mut facts = Facts {
         out_dir: if has_input { out_dir } else { None },
-        file_stem: format!("{}{}{}", crate_name, if is_test { "-test" } else { "" }, extra),
+        file_stem: format!("{}{}", crate_name, extra),
         ast: None,
     };
     rustc_driver::catch_with_exit_code(|| rustc_driver::run_compiler(&args, &mut facts));
